@@ -103,8 +103,8 @@ theorem rleValues_cons (it : Item) (rest : List Item) : rleValues (it :: rest) =
 theorem rleValues_add (items : List Item) (v : Int) : rleValues (rleAdd items v) = rleValues items ++ [v] := by
   fun_induction rleAdd items v with
   | case1 v => simp [rleValues, Item.new, Item.values, valuesLoop]
-  | case2 v lastItem it' h => simp [rleValues, Item.values_add h]
-  | case3 v lastItem h => simp [rleValues, Item.new, Item.values, valuesLoop]
+  | case2 lastItem v it' h => simp [rleValues, Item.values_add h]
+  | case3 lastItem v h => simp [rleValues, Item.new, Item.values, valuesLoop]
   | case4 it rest v hne ih => rw [rleValues_cons, ih, rleValues_cons, List.append_assoc]
 
 theorem rleValues_foldl (xs : List Int) : ∀ items : List Item,
@@ -639,5 +639,78 @@ theorem totalFrames01_eq (items : List Item01) : totalFrames01 items = ((recs01 
   | cons it rest ih =>
     simp only [totalFrames01, List.map_cons, List.sum_cons, recs01, List.flatMap_cons, List.map_append, List.sum_append] at ih ⊢
     rw [ih, Item01.totalFrames_eq]
+
+/-! ### float abstraction (`Rat`, `isclose` as a parameter) -/
+namespace F
+
+/-- "the decoded value `y` stands for the added value `x`": identical, or accepted by `isclose`. -/
+def Rel (close : Rat → Rat → Bool) (x y : Rat) : Prop := x = y ∨ close x y = true
+
+theorem valuesLoop_length (s : Rat) : ∀ (n : Nat) (v : Rat), (valuesLoop s n v).length = n
+  | 0, _ => rfl
+  | n + 1, v => by simp [valuesLoop, valuesLoop_length s n]
+
+theorem valuesLoop_succ (s : Rat) : ∀ (n : Nat) (v : Rat),
+    valuesLoop s (n + 1) v = valuesLoop s n v ++ [v + s * ((n + 1 : Nat) : Rat)]
+  | 0, v => by simp [valuesLoop]
+  | n + 1, v => by
+    rw [valuesLoop, valuesLoop_succ s n (v + s)]
+    conv => rhs; rw [valuesLoop]
+    simp only [List.cons_append, List.cons.injEq, true_and, List.append_cancel_left_eq, and_true]
+    grind
+
+theorem Item.values_length (it : Item) : it.values.length = it.rep + 1 := by
+  simp [Item.values, valuesLoop_length]
+
+theorem Item.values_add {close : Rat → Rat → Bool} {it it' : Item} {v : Rat} (h : it.add close v = some it') :
+    ∃ y, it'.values = it.values ++ [y] ∧ Rel close v y ∧ it'.rep = it.rep + 1 := by
+  unfold Item.add at h
+  split at h
+  · rename_i h0
+    cases h
+    refine ⟨v, ?_, Or.inl rfl, by simp [h0]⟩
+    simp only [Item.values, valuesLoop, h0, List.cons_append, List.nil_append, List.cons.injEq, true_and, and_true]
+    grind
+  · simp only at h
+    split at h
+    · rename_i hv
+      cases h
+      refine ⟨_, ?_, Or.inr hv, rfl⟩
+      simp only [Item.values]
+      rw [valuesLoop_succ]; rfl
+    · cases h
+
+theorem rleValues_add (close : Rat → Rat → Bool) (items : List Item) (v : Rat) :
+    ∃ y, rleValues (rleAdd close items v) = rleValues items ++ [y] ∧ Rel close v y ∧
+      numValues (rleAdd close items v) = numValues items + 1 := by
+  fun_induction rleAdd close items v with
+  | case1 v => exact ⟨v, by simp [rleValues, Item.new, Item.values, valuesLoop], Or.inl rfl, by simp [numValues, Item.new]⟩
+  | case2 lastItem v it' h =>
+    obtain ⟨y, hy, hr, hn⟩ := Item.values_add h
+    exact ⟨y, by simp [rleValues, hy], hr, by simp [numValues, hn]⟩
+  | case3 lastItem v h =>
+    exact ⟨v, by simp [rleValues, Item.new, Item.values, valuesLoop], Or.inl rfl, by simp [numValues, Item.new]⟩
+  | case4 it rest v hne ih =>
+    obtain ⟨y, hy, hr, hn⟩ := ih
+    refine ⟨y, ?_, hr, ?_⟩
+    · simp only [rleValues, List.flatMap_cons] at hy ⊢
+      rw [hy, List.append_assoc]
+    · simp only [numValues, List.map_cons, List.sum_cons] at hn ⊢
+      omega
+
+theorem rleValues_foldl (close : Rat → Rat → Bool) (xs : List Rat) : ∀ items : List Item,
+    ∃ ys, rleValues (xs.foldl (rleAdd close) items) = rleValues items ++ ys ∧ List.Forall₂ (Rel close) xs ys ∧
+      numValues (xs.foldl (rleAdd close) items) = numValues items + xs.length := by
+  induction xs with
+  | nil => intro items; exact ⟨[], by simp, List.Forall₂.nil, by simp⟩
+  | cons x xs ih =>
+    intro items
+    obtain ⟨y, hy, hr, hn⟩ := rleValues_add close items x
+    obtain ⟨ys, hys, hrs, hns⟩ := ih (rleAdd close items x)
+    refine ⟨y :: ys, ?_, List.Forall₂.cons hr hrs, ?_⟩
+    · rw [List.foldl_cons, hys, hy]; simp
+    · rw [List.foldl_cons, hns, hn, List.length_cons]; omega
+
+end F
 
 end TD.C16
